@@ -75,6 +75,7 @@ func init() {
 		conserve.QuantAll(p, r)
 		conserve.NotOfOr(p, r)
 		conserve.QualifierRules(p, r)
+		conserve.ValuesOnly(p, r)
 		conserve.SelectorRules(p, r)
 		r.NotDecided = append(r.NotDecided, "selector grammar and regexp semantics", "the tie-break and the recursive cases of LocationLess", "boolean-algebra laws of And/Or/Not", "the binary search of FeatureSlice.Insert")
 	})
